@@ -380,6 +380,11 @@ def encColumn (c : EncCase) (obs : List String) : String :=
   else if canonEnc m == canonEnc obs && batchingOk c obs then String.intercalate " " obs
   else String.intercalate " " m
 
+/-- Every `Pending` the code under test returned came with a wake-up (issued or registered) — the
+harness's drivers poll with a counting waker and report a `Pending` without one as `lost-wakeup`
+(under a real executor the stream would park for ever: the poll never completes). -/
+def noLostWakeup (obs : List String) : Bool := !obs.contains "lost-wakeup"
+
 /-- the tokens that are neither pending nor data/message -/
 def isBad (t : String) : Bool := t = "panic" || t = "busy-loop" || t = "hang"
 
